@@ -1,4 +1,5 @@
 import MimicProofs.Framing
+import MimicProofs.StreamCode
 import MimicProofs.Types
 /-!
 # C04 — Packet framing is lossless for every payload size and every stream segmentation
@@ -156,5 +157,28 @@ theorem header_is_code (len seq : Nat) :
 theorem header_read_is_code (r : Mimic.Wire.Bytes) :
     Mimic.Extracted.Types.read_uint_3 r = Mimic.Wire.readUInt 3 r ∧ Mimic.Extracted.Types.read_uint_1 r = Mimic.Wire.readUInt 1 r :=
   ⟨MimicProofs.Types.read_uint_3_eq r, MimicProofs.Types.read_uint_1_eq r⟩
+
+/-! ### the write loop itself (`Mimic.Extracted.StreamCode`, regenerated from `/repo` by `harness/pytrans2.py`) -/
+
+open MimicProofs.StreamCode in
+/-- **`MysqlStream.write` of `stream.py`, translated, is the model's `wwrite`** — the `while True` loop with its slicing
+    at 0xFFFFFF, the header `uint_3(len) + uint_1(next(seq))`, the buffer, the threshold test and `drain()` — for every
+    payload, drain flag, buffer size and starting state, and it terminates: any fuel above the payload length suffices. -/
+theorem write_is_code (s : MS) (hw : WF s) (data : Bytes) (d : Bool) (fuel : Nat) (hf : data.length < fuel) :
+    ∃ s' : MS, Mimic.Extracted.StreamCode.ms_write fuel s data d = some s' ∧
+      absW s' = wwrite 16777215 s._buffer_size (absW s) data d ∧ WF s' ∧ s'._buffer_size = s._buffer_size :=
+  write_refines s hw data d fuel hf
+
+open MimicProofs.StreamCode in
+/-- **code level: bytes leave in write order, none lost, none duplicated** — what the translated `write` has handed to the
+    transport plus what it still buffers is what was there before followed by the packets of the payload -/
+theorem code_write_preserves_order (s : MS) (hw : WF s) (data : Bytes) (d : Bool) (fuel : Nat) (hf : data.length < fuel) :
+    ∃ s' : MS, Mimic.Extracted.StreamCode.ms_write fuel s data d = some s' ∧
+      (absW s').bytes = (absW s).bytes ++ wire 16777215 s.seq.value data := by
+  obtain ⟨s', h1, h2, _, _⟩ := write_refines s hw data d fuel hf
+  exact ⟨s', h1, by rw [h2, write_preserves_order]; rfl⟩
+
+/-- the literal the code slices at is the model's `M` -/
+theorem code_max_packet : (16777215 : Nat) = M := by decide
 
 end MimicProps.C04
